@@ -18,6 +18,10 @@ pub struct Universe {
     pub foreign_methods: Vec<String>,
     pub foreign_args: Vec<String>,
     pub extra_classes: Vec<String>,
+    /// spellings that CONTAIN a class name of the file (module / loader qualifiers, descriptor
+    /// and path spellings, inner-class suffixes) with the index of that class: asked with
+    /// the class's own methods and lines, they must be answered like any unknown class
+    pub qualified_classes: Vec<(String, usize)>,
     pub files: Vec<String>,
     pub base_lines: Vec<u64>,
     pub in_domain: bool,
@@ -110,6 +114,31 @@ pub fn from_records(items: &[NItem<'_>], full_lines: bool) -> Universe {
         let flipped: String =
             n.chars().map(|ch| if ch.is_ascii_lowercase() { ch.to_ascii_uppercase() } else { ch.to_ascii_lowercase() }).collect();
         u.extra_classes.push(flipped);
+    }
+    for (i, c) in u.classes.iter().enumerate().take(4) {
+        let n = &c.name;
+        if n.is_empty() {
+            continue;
+        }
+        for v in [
+            format!("app//{n}"),
+            format!("java.base/{n}"),
+            format!("app/my.module@1.2/{n}"),
+            format!("x/{n}"),
+            n.replace('.', "/"),
+            n.replace('.', "$"),
+            n.replace('$', "."),
+            format!("L{n};"),
+            format!("{n}$1"),
+            format!("{n}.Companion"),
+            format!(" {n}"),
+            format!("{n} "),
+            format!("[{n}"),
+        ] {
+            if v != *n && !u.classes.iter().any(|k| k.name == v) {
+                u.qualified_classes.push((v, i));
+            }
+        }
     }
     u.extra_classes.push("unknown.Klass".into());
     u.extra_classes.push(String::new());
